@@ -110,9 +110,14 @@ theorem c15_lockring_refinement_from (s : St) (h : Inv s) (hN : M32 % s.N = 0) (
     run32 (img s) as = some (img (LockRing.run s as)) :=
   sim_run s as h hN hNs
 
-/-- results, payloads and the lock are untouched by the image -/
+/-- results, payloads and the lock are untouched by the image (of a thread's registers only the `tail` value an unlocked
+    length query has loaded is reduced modulo 2^32) -/
 theorem c15_lockring_same_observables (s : St) :
-    (img s).thr = s.thr ∧ (img s).buf = s.buf ∧ (img s).accepted = s.accepted ∧ (img s).locked = s.locked := ⟨rfl, rfl, rfl, rfl⟩
+    (∀ t r, (img s).thr t = .done r ↔ s.thr t = .done r) ∧ (img s).buf = s.buf ∧ (img s).accepted = s.accepted ∧
+      (img s).locked = s.locked := by
+  refine ⟨fun t r => ?_, rfl, rfl, rfl⟩
+  show imgLoc (s.thr t) = .done r ↔ s.thr t = .done r
+  cases s.thr t <;> simp [imgLoc]
 
 /-- a concrete run on a ring whose counters start 2 below the wrap: three sends, two receives, a length query — counters wrap,
     answers are those of a fresh ring -/
@@ -120,7 +125,7 @@ example :
     (run32 (init32 4 4294967294)
       [.send 0 11, .step 0, .step 0, .step 0, .step 0, .step 0, .ack 0, .send 0 22, .step 0, .step 0, .step 0, .step 0, .step 0, .ack 0,
        .send 0 33, .step 0, .step 0, .step 0, .step 0, .step 0, .ack 0,
-       .recv 1, .step 1, .step 1, .step 1, .step 1, .step 1, .ack 1, .len 2, .step 2]).map
+       .recv 1, .step 1, .step 1, .step 1, .step 1, .step 1, .step 1, .ack 1, .len 2, .step 2, .step 2]).map
       (fun s => (s.head, s.tail, s.thr 2, s.delivered.map (·.2.2)))
     = some (4294967295, 1, .done (.len 2), [11]) := by decide
 
